@@ -21,7 +21,7 @@
 (***************************************************************************)
 EXTENDS Integers, Sequences, FiniteSets, TLC
 
-CONSTANTS ConfigTable,   \* function: configuration name -> configuration record (see _MC)
+CONSTANTS Configs,       \* set of configuration records, each with a name field (see _MC)
           ReqAt(_, _),   \* ReqAt(a, i): request alphabet named a (a configuration's alpha field) offered as the (i+1)-th
                          \* request: a set of request records (shape: Req below)
           MaxAttempts,   \* maxAuthServerAttempts (128 in the code)
@@ -148,7 +148,7 @@ Methods(s) == (IF s.hasPw THEN <<"password">> ELSE <<>>) \o (IF s.hasPk THEN <<"
 NoCache == [valid |-> FALSE, u |-> "", k |-> "", res |-> AbsentO]
 NoPk == [u |-> "", k |-> ""]
 
-Init == /\ cfg \in {[name |-> n] @@ ConfigTable[n] : n \in DOMAIN ConfigTable}
+Init == /\ cfg \in Configs
         /\ stage = 1 /\ partial = FALSE /\ user = "" /\ cache = NoCache
         /\ failures = 0 /\ attempts = 0 /\ noneCount = 0 /\ status = "running"
         /\ perms = NilPerms /\ out = <<>> /\ cbs = <<>>
